@@ -17,10 +17,13 @@ import (
 
 var engines = map[string]func(*engine.Ctx){
 	"C01": engine.C01,
+	"C02": engine.C02,
+	"C07": engine.C07,
 	"C08": engine.C08,
 	"C09": engine.C09,
 	"C10": engine.C10,
 	"C11": engine.C11,
+	"C13": engine.C13,
 }
 
 func usage() {
